@@ -131,4 +131,36 @@ def callStep (s : MuState) (e : LockExit) : MuState :=
 
 def runCalls (calls : List LockExit) : MuState := calls.foldl callStep {}
 
+/-! ## (D) module data (mod_geo database, rule tables of mod_block / mod_redirect / mod_rewrite …)
+
+  A handler takes the module's current data under the read lock (`take`) and then works on what it took WITHOUT the
+  lock (`use`); a reload builds new data and swaps it in under the write lock.  The swap itself cannot hurt a request in
+  flight — unless the reload also TOUCHES the value it replaced (closes the old database, clears the old map): then what
+  the request holds is dead. -/
+
+inductive MStep where
+  | reload (v : Nat) (touchesOld : Bool)
+  | take (i : Nat)
+  | use (i : Nat)
+  | handle                    -- a whole new request: take + use at once
+  deriving Repr, DecidableEq
+
+structure MSt where
+  cur : Nat := 0
+  dead : List Nat := []                         -- versions whose data a reload has closed / cleared
+  snaps : Nat → Option Nat := fun _ => none
+  out : List (String × Nat × Option Nat) := []  -- (step, version taken, answer: `some v` = data of version v, `none` = failure)
+
+def answer (dead : List Nat) (v : Nat) : Option Nat := if dead.contains v then none else some v
+
+def mstep (s : MSt) : MStep → MSt
+  | .reload v t => { s with cur := v, dead := if t then s.cur :: s.dead else s.dead }
+  | .take i => { s with snaps := fun j => if j = i then some s.cur else s.snaps j }
+  | .use i => match s.snaps i with
+    | some v => { s with out := s.out ++ [(s!"U{i}", v, answer s.dead v)] }
+    | none => s
+  | .handle => { s with out := s.out ++ [("H", s.cur, answer s.dead s.cur)] }
+
+def mrun (steps : List MStep) : MSt := steps.foldl mstep {}
+
 end BfeVerif.C15
